@@ -2,10 +2,9 @@
 scenarios on real processes; no Lean side)."""
 from harness.corecheck import make
 from harness.props import live_core
-# Props/C03Run.lean and Core/SigKill.lean, SigExec.lean, SigRun.lean are out of the build until they are repaired for the
-# EPERM outcome of the daemon's kill (see the note in lean/CircusProofs.lean): they are not audited meanwhile
-PARTS = [make("C03", ["CircusProofs/Props/C03.lean"],
+PARTS = [make("C03", ["CircusProofs/Props/C03.lean", "CircusProofs/Props/C03Run.lean"],
               ["CircusProofs/Core/Pres.lean", "CircusProofs/Core/KStep.lean", "CircusProofs/Core/Generic.lean",
                "CircusProofs/Core/SlotFree.lean", "CircusProofs/Core/PidInv.lean", "CircusProofs/Core/SigKernel.lean",
-               "CircusProofs/Core/SigDefs.lean", "CircusProofs/Core/SigSync.lean", "CircusProofs/Core/SigPrim.lean"]),
+               "CircusProofs/Core/SigDefs.lean", "CircusProofs/Core/SigSync.lean", "CircusProofs/Core/SigPrim.lean",
+               "CircusProofs/Core/SigKill.lean", "CircusProofs/Core/SigExec.lean", "CircusProofs/Core/SigRun.lean"]),
          live_core]
